@@ -767,7 +767,13 @@ func (self PathNode) marshal(p *thrift.BinaryProtocol, opts *Options) error {
 func guardPathNodeSlice(con *[]PathNode, l int) {
 	c := cap(*con)
 	if l >= c {
-		tmp := make([]PathNode, len(*con), l+DefaultNodeSliceCap)
+		// grow geometrically: growing by a constant reallocates and copies the slice once for every
+		// DefaultNodeSliceCap children, which is quadratic in the number of children
+		n := l + DefaultNodeSliceCap
+		if n < c*2 {
+			n = c * 2
+		}
+		tmp := make([]PathNode, len(*con), n)
 		copy(tmp, *con)
 		*con = tmp
 	}
